@@ -736,6 +736,147 @@ func ptrProp(c PtrCase, r *pbt.R) error {
 	return nil
 }
 
+// ---------------------------------------------------------------------------
+// bulk: long fills and drains (hundreds to thousands of elements), observed at the phase boundaries
+
+// BulkCase: Phases are (kind, count): 0 = Enqueue count elements (a running counter 1, 2, 3, ...: every element is unique, the
+// zero value is never enqueued), 1 = Dequeue count times (whatever the size), 2 = Clear. The linked queue starts with [1].
+type BulkCase struct {
+	Linked bool     `json:"linked"`
+	Phases [][2]int `json:"phases"`
+}
+
+// counts around the powers of two, where slice-backed storage grows, shrinks or is reallocated
+var bulkCounts = []int{1, 2, 5, 31, 32, 33, 63, 64, 65, 100, 127, 128, 129, 255, 256, 257, 300, 511, 512, 513, 1000, 1023, 1024, 1025, 2000, 4097}
+
+func bulkGen(s pbt.Src, thorough bool) BulkCase {
+	c := BulkCase{Linked: pbt.Bool(s)}
+	max := 8
+	if thorough {
+		max = 16
+	}
+	c.Phases = pbt.Seq(s, 2, max, func(s pbt.Src) [2]int {
+		n := bulkCounts[s.Intn(len(bulkCounts))]
+		if s.Intn(4) == 0 {
+			n = 1 + s.Intn(3000)
+		}
+		return [2]int{pbt.Pick(s, 0, 0, 0, 1, 1, 1, 1, 2), n}
+	})
+	return c
+}
+
+func bulkProp(c BulkCase, r *pbt.R) error {
+	var q fifo
+	var model []int
+	next := 0
+	name := "queue.New[int]()"
+	if c.Linked {
+		next = 1
+		q = linkedQ{queue.NewLinked(1)}
+		model = []int{1}
+		name = "queue.NewLinked(1)"
+	} else {
+		q = sliceQ{queue.New[int]()}
+	}
+	total, maxSize, refilled, wasBig := 0, 0, false, false
+	for pi, ph := range c.Phases {
+		kind, n := ((ph[0]%3)+3)%3, ph[1]
+		if n < 0 || n > 5000 || total > 40000 {
+			return nil
+		}
+		total += n
+		ctx := func() string { return fmt.Sprintf("%s, phases (0 Enqueue n, 1 Dequeue n, 2 Clear) %v, in phase %d", name, c.Phases[:pi+1], pi) }
+		switch kind {
+		case 0:
+			if wasBig && len(model) < maxSize/4 {
+				refilled = true
+			}
+			for i := 0; i < n; i++ {
+				next++
+				q.Enqueue(next)
+				model = append(model, next)
+			}
+		case 1:
+			for i := 0; i < n; i++ {
+				got, empty := q.Dequeue()
+				if len(model) == 0 {
+					if (c.Linked && got != 0) || (!c.Linked && !empty) {
+						return fmt.Errorf("%s: Dequeue #%d on the empty queue returned (%d, emptiness reported: %v)", ctx(), i+1, got, empty)
+					}
+					continue
+				}
+				if got != model[0] || empty {
+					return fmt.Errorf("%s: Dequeue #%d returned (%d, emptiness reported: %v), want %d (%d elements held)", ctx(), i+1, got, empty, model[0], len(model))
+				}
+				model = model[1:]
+				if i%64 == 0 && q.Size() != len(model) {
+					return fmt.Errorf("%s: after Dequeue #%d Size() = %d, want %d", ctx(), i+1, q.Size(), len(model))
+				}
+			}
+		default:
+			q.Clear()
+			model = nil
+		}
+		if len(model) > maxSize {
+			maxSize = len(model)
+		}
+		if maxSize >= 256 {
+			wasBig = true
+		}
+		if got := q.Size(); got != len(model) {
+			return fmt.Errorf("%s: Size() = %d, want %d", ctx(), got, len(model))
+		}
+		probe := map[int]bool{0: false, next + 1: false}
+		if len(model) > 0 {
+			if got := q.Peek(); got != model[0] {
+				return fmt.Errorf("%s: Peek() = %d, want %d", ctx(), got, model[0])
+			}
+			probe[model[0]], probe[model[len(model)-1]], probe[model[len(model)/2]] = true, true, true
+			if model[0] > 1 {
+				probe[model[0]-1] = false // dequeued (or cleared) last
+			}
+		} else if c.Linked {
+			if got := q.Peek(); got != 0 {
+				return fmt.Errorf("%s: Peek() on the empty linked queue = %d, want the zero value", ctx(), got)
+			}
+		}
+		for v, want := range probe {
+			if got := q.Search(v); got != want {
+				return fmt.Errorf("%s: Search(%d) = %v, want %v (%d elements held, %d..%d)", ctx(), v, got, want, len(model), first(model), last(model))
+			}
+		}
+	}
+	// drain: order, exactly once
+	for i, want := range model {
+		got, empty := q.Dequeue()
+		if got != want || empty {
+			return fmt.Errorf("%s, phases %v, final drain: Dequeue #%d returned (%d, emptiness reported: %v), want %d", name, c.Phases, i+1, got, empty, want)
+		}
+	}
+	if got := q.Size(); got != 0 {
+		return fmt.Errorf("%s, phases %v: Size() = %d after the final drain", name, c.Phases, got)
+	}
+	r.NonTrivialIf(wasBig, "held >= 256 elements at some point")
+	if refilled {
+		r.Label("enqueued to again after shrinking below a quarter of its largest size")
+	}
+	return nil
+}
+
+func first(m []int) int {
+	if len(m) == 0 {
+		return 0
+	}
+	return m[0]
+}
+
+func last(m []int) int {
+	if len(m) == 0 {
+		return 0
+	}
+	return m[len(m)-1]
+}
+
 func TestProp(t *testing.T) {
 	pbt.Run(t, "C05",
 		&pbt.Check[Case]{
@@ -771,6 +912,13 @@ func TestProp(t *testing.T) {
 			Prop:       ptrProp,
 			OutOfEnum:  func(c PtrCase, th bool) bool { return len(c.Ops) > 5 },
 			RapidQuick: 200, RapidThorough: 3000,
+		},
+		&pbt.Check[BulkCase]{
+			Name: "bulk",
+			Rule: "long fills and drains on both queues: 2..8 (thorough 16) phases of Enqueue n (a running counter: every element unique) / Dequeue n (whatever the size) / Clear with n around the powers of two up to 4097 or random up to 3000; every Dequeue result is compared with the model, " +
+				"Size every 64 Dequeues, and at every phase boundary Size, Peek and Search of the front, middle and back elements, of the element removed last, of the zero value and of a value never enqueued; final drain in order. Random only. Non-trivial = the queue held >= 256 elements at some point.",
+			Gen: bulkGen, Prop: bulkProp, OutOfEnum: func(BulkCase, bool) bool { return true },
+			RapidQuick: 400, RapidThorough: 6000,
 		},
 	)
 }
